@@ -80,6 +80,11 @@ def translate(pkg) -> str:
     c = parse_file(pkg / "compiler.py")
     out.append(f"Definition gen_compile_code : skel := {skel(find_def(c, 'compile_code').body)}.")
     out.append(f"Definition gen_compiler_compile : skel := {skel(find_def(c, 'compile', cls='Compiler').body)}.")
+    cp = parse_file(pkg / "compile_pass.py")
+    out.append(f"Definition gen_constexpr_decorators : skel := {skel(find_def(cp, 'handle_decorators', cls='CompilerPassHandleConstexpr').body)}.")
+    out.append(f"Definition gen_constexpr_check : skel := {skel(find_def(cp, 'check_constexpr_function', cls='CompilerPassHandleConstexpr').body)}.")
+    g = parse_file(pkg / "generate_code.py")
+    out.append(f"Definition gen_gather_run : skel := {skel(find_def(g, 'run', cls='CompilerPassGatherCode').body)}.")
     u = parse_file(pkg / "utils.py")
     out.append(f"Definition gen_eval_constexpr : skel := {skel(find_def(u, 'eval_constexpr').body)}.")
     return "\n".join(out) + "\n"
